@@ -676,7 +676,7 @@ const char* model_fault_name(int f)
     return f >= 0 && f < MF_COUNT ? n[f] : "?";
 }
 
-bool apply_model_fault(Model& m, int fault, Rng& rng)
+bool apply_model_fault(Model& m, int fault, Rng& rng, bool semantic_only)
 {
     auto pick_templ = [&](auto pred) -> MTempl* {
         std::vector<MTempl*> c;
@@ -753,7 +753,13 @@ bool apply_model_fault(Model& m, int fault, Rng& rng)
         auto& d = rng.chance(0.6) || m.templs.empty() ? m.gdecls : m.templs[rng.below((uint32_t)m.templs.size())].decls;
         if (d.empty())
             return false;
-        d.insert(d.begin() + rng.below((uint32_t)d.size() + 1), d[rng.below((uint32_t)d.size())]);
+        const size_t pi = rng.below((uint32_t)d.size());
+        const MDecl pick = d[pi];
+        if (semantic_only && pick.kind != MDecl::VAR)
+            return false;
+        // semantic_only: after the original, so that every type the declaration mentions is already declared
+        const size_t lo = semantic_only ? pi + 1 : 0;
+        d.insert(d.begin() + lo + rng.below((uint32_t)(d.size() + 1 - lo)), pick);
         return true;
     }
     case MF_DUP_PARAM: {
